@@ -206,6 +206,18 @@ fn parse_domain(name: &str, fragment: &yaml::Yaml) -> Result<Option<String>, Err
     }
 }
 
+/// The most octets of encoded domain names that fit in one DNSSL option (RFC8106 Section 5.2).
+/// The option length is an octet counting units of 8 octets, one of them being the header.
+pub const MAX_DNSSL_OCTETS: usize = 254 * 8;
+
+/// The size of a list of domain names in the encoding of the DNSSL option.
+pub fn dnssl_octets(domains: &[String]) -> usize {
+    domains
+        .iter()
+        .map(|d| d.split('.').map(|label| 1 + label.len()).sum::<usize>() + 1)
+        .sum()
+}
+
 fn parse_dnssl(
     name: &str,
     fragment: &yaml::Yaml,
@@ -216,7 +228,14 @@ fn parse_dnssl(
         for (k, v) in h {
             match (k.as_str(), v) {
                 (Some("domains"), a) => {
-                    domains = ConfigValue::from_option(parse_array("domains", a, parse_domain)?)
+                    let list = parse_array("domains", a, parse_domain)?;
+                    if list.as_ref().is_some_and(|v| dnssl_octets(v) > MAX_DNSSL_OCTETS) {
+                        return Err(Error::InvalidConfig(format!(
+                            "{} domains do not fit in a router advertisement option",
+                            name
+                        )));
+                    }
+                    domains = ConfigValue::from_option(list)
                 }
                 (Some("lifetime"), d) => {
                     lifetime = ConfigValue::from_option(parse_duration("lifetime", d)?)
